@@ -218,98 +218,109 @@ Inductive regmode := ByPtr (a : N) | ByCount.
 Definition register (st : estate) (r : regmode) : estate :=
   match r with ByPtr a => set_ptr st a | ByCount => add_count st 1 end.
 
+(* body of a referable container/value, after its registration [r];
+   [rec] encodes one element / field (the recursive call of the encoder) *)
+Definition enc_body (rec : estate -> gval -> eres) (r : regmode) (st : estate) (v : gval) : eres :=
+  match v with
+  | GBytes b => EOk (register st r) (WBytes b)
+  | GBytes2d rows =>
+      (* writeBytesSliceBody: per row, AddReferenceCount(1) unless the row is nil (written as 'n') *)
+      let st1 := register st r in
+      if (length rows =? 0)%nat then EOk st1 (WList [])
+      else EOk (fold_left (fun s row => match row with Some _ => add_count s 1 | None => s end) rows st1)
+               (WList (map bytes_row rows))
+  | GSlice vs | GList vs =>
+      let st1 := register st r in
+      match enc_seq rec st1 vs with
+      | inl (Some (st2, ws)) => EOk st2 (WList ws)
+      | inl None => EFuel
+      | inr e => e
+      end
+  | GMap kvs =>
+      let st1 := register st r in
+      match enc_seq rec st1 kvs with
+      | inl (Some (st2, ws)) => EOk st2 (WMap ws)
+      | inl None => EFuel
+      | inr e => e
+      end
+  | GStruct name fields vs =>
+      (* structEncoder.Write: WriteStructType; SetReference(v); WriteObjectHead(r); fields; foot *)
+      let '(st1, idx, fresh) :=
+        match class_lookup st name with
+        | Some k => (st, k, false)
+        | None => let '(s', k) := class_define st name (N.of_nat (length fields)) in (s', k, true)
+        end in
+      let st2 := register st1 r in
+      match enc_seq rec st2 vs with
+      | inl (Some (st3, ws)) =>
+          EOk st3 (if fresh then WClass name fields (WObj idx ws) else WObj idx ws)
+      | inl None => EFuel
+      | inr e => e
+      end
+  | GAnon fields vs =>
+      let st1 := register st r in
+      match enc_anon_fields rec st1 fields vs with
+      | inl (Some (st2, ws)) => EOk st2 (WMap ws)
+      | inl None => EFuel
+      | inr e => e
+      end
+  | GTime y mo d h mi s ns utc =>
+      let st1 := register st r in
+      match enc_time y mo d h mi s ns utc with
+      | Some w => EOk st1 w
+      | None => EPanic 1%N
+      end
+  | GUuid txt => EOk (register st r) (WGuid txt)
+  | _ => EPanic 3%N
+  end.
+
+(* is the pointee one whose pointer is tracked by identity (refer.Set) *)
+Definition tracked (pv : gval) : bool :=
+  match pv with
+  | GBytes _ | GBytes2d _ | GSlice _ | GList _ | GMap _ | GStruct _ _ _ | GAnon _ _
+  | GTime _ _ _ _ _ _ _ _ | GUuid _ => true
+  | _ => false
+  end.
+
+(* one level of enc.encode(v) *)
+Definition enc_step (rec : estate -> gval -> eres) (st : estate) (v : gval) : eres :=
+  match v with
+  | GNil => EOk st WNull
+  | GBool b => EOk st (if b then WTrue else WFalse)
+  | GInt k z => EOk st (enc_int k z)
+  | GFloat fv => EOk st (enc_float fv)
+  | GComplex re im im_zero =>
+      if im_zero then EOk st (enc_float re)
+      else EOk (add_count st 1) (WList [enc_float re; enc_float im])
+  | GString s => let '(st1, w) := enc_string st s in EOk st1 w
+  | GBigInt z => EOk st (WLong z)
+  | GBigFloat txt => EOk st (WDouble txt)
+  | GBigRat num txt =>
+      (* r.IsInt() -> WriteBigInt(r.Num()); else AddReferenceCount(1); appendString(r.String()) *)
+      match num with
+      | Some z => EOk st (WLong z)
+      | None => EOk (add_count st 1) (string_wire txt)
+      end
+  | GError msg => EOk (add_count st 1) (WErr (string_wire msg))
+  | GPtr a =>
+      match hlookup hp a with
+      | None => EPanic 2%N
+      | Some pv =>
+          if tracked pv then
+            (* Encode: WriteReference(ptr) else Write with Set(ptr) *)
+            match lookup_ptr st a with
+            | Some k => EOk st (WRef k)
+            | None => enc_body rec (ByPtr a) st pv
+            end
+          else rec st pv   (* scalars, strings, big numbers, errors, **T: the pointer is transparent *)
+      end
+  | _ => enc_body rec ByCount st v
+  end.
+
 Fixpoint enc (fuel : nat) (st : estate) (v : gval) {struct fuel} : eres :=
   match fuel with
   | O => EFuel
-  | S f =>
-      (* body of a referable container/value, after its registration [r] *)
-      let body (r : regmode) (st : estate) (v : gval) : eres :=
-        match v with
-        | GBytes b => EOk (register st r) (WBytes b)
-        | GBytes2d rows =>
-            (* writeBytesSliceBody: AddReferenceCount(n) for n rows, nil rows written as 'n' *)
-            let st1 := register st r in
-            if (length rows =? 0)%nat then EOk st1 (WList [])
-            else EOk (add_count st1 (N.of_nat (length rows))) (WList (map bytes_row rows))
-        | GSlice vs | GList vs =>
-            let st1 := register st r in
-            match enc_seq (enc f) st1 vs with
-            | inl (Some (st2, ws)) => EOk st2 (WList ws)
-            | inl None => EFuel
-            | inr e => e
-            end
-        | GMap kvs =>
-            let st1 := register st r in
-            match enc_seq (enc f) st1 kvs with
-            | inl (Some (st2, ws)) => EOk st2 (WMap ws)
-            | inl None => EFuel
-            | inr e => e
-            end
-        | GStruct name fields vs =>
-            (* structEncoder.Write: WriteStructType; SetReference(v); WriteObjectHead(r); fields; foot *)
-            let '(st1, idx, fresh) :=
-              match class_lookup st name with
-              | Some k => (st, k, false)
-              | None => let '(s', k) := class_define st name (N.of_nat (length fields)) in (s', k, true)
-              end in
-            let st2 := register st1 r in
-            match enc_seq (enc f) st2 vs with
-            | inl (Some (st3, ws)) =>
-                EOk st3 (if fresh then WClass name fields (WObj idx ws) else WObj idx ws)
-            | inl None => EFuel
-            | inr e => e
-            end
-        | GAnon fields vs =>
-            let st1 := register st r in
-            match enc_anon_fields (enc f) st1 fields vs with
-            | inl (Some (st2, ws)) => EOk st2 (WMap ws)
-            | inl None => EFuel
-            | inr e => e
-            end
-        | GTime y mo d h mi s ns utc =>
-            let st1 := register st r in
-            match enc_time y mo d h mi s ns utc with
-            | Some w => EOk st1 w
-            | None => EPanic 1%N
-            end
-        | GUuid txt => EOk (register st r) (WGuid txt)
-        | _ => EPanic 3%N
-        end in
-      match v with
-      | GNil => EOk st WNull
-      | GBool b => EOk st (if b then WTrue else WFalse)
-      | GInt k z => EOk st (enc_int k z)
-      | GFloat fv => EOk st (enc_float fv)
-      | GComplex re im im_zero =>
-          if im_zero then EOk st (enc_float re)
-          else EOk (add_count st 1) (WList [enc_float re; enc_float im])
-      | GString s => let '(st1, w) := enc_string st s in EOk st1 w
-      | GBigInt z => EOk st (WLong z)
-      | GBigFloat txt => EOk st (WDouble txt)
-      | GBigRat num txt =>
-          (* r.IsInt() -> WriteBigInt(r.Num()); else AddReferenceCount(1); appendString(r.String()) *)
-          match num with
-          | Some z => EOk st (WLong z)
-          | None => EOk (add_count st 1) (string_wire txt)
-          end
-      | GError msg => EOk (add_count st 1) (WErr (string_wire msg))
-      | GPtr a =>
-          match hlookup hp a with
-          | None => EPanic 2%N
-          | Some pv =>
-              match pv with
-              | GBytes _ | GBytes2d _ | GSlice _ | GList _ | GMap _ | GStruct _ _ _ | GAnon _ _
-              | GTime _ _ _ _ _ _ _ _ | GUuid _ =>
-                  (* Encode: WriteReference(ptr) else Write with Set(ptr) *)
-                  match lookup_ptr st a with
-                  | Some k => EOk st (WRef k)
-                  | None => body (ByPtr a) st pv
-                  end
-              | _ => enc f st pv   (* scalars, strings, big numbers, errors, **T: pointer is transparent *)
-              end
-          end
-      | _ => body ByCount st v
-      end
+  | S f => enc_step (enc f) st v
   end.
 
 End WithMode.
